@@ -59,6 +59,7 @@ fn main() {
                 "track" => {
                     d.random_big::<Track, 8>(big / 2);
                     d.random_big::<Track, 16>(big / 2);
+                    d.random_big::<Track, 40>(big / 20);
                 }
                 "large" => d.random_big::<Large, 8>(big),
                 _ => {
